@@ -97,10 +97,31 @@ class ClckEngine:
 				if rng.random() < 0.1:
 					wk[str(k)] = rng.choice([1, 500, rng.randrange(1, 2_000_000), rng.randrange(P_NOM, 2 * P_NOM)])
 			faults["wake-latency"] = wk
-		return {"engine": "clck", "seed": seed,
-			"config": {"clck_start": start, "ind_period": period, "nlinks": nlinks,
-				"clock_offset": rng.choice([0, 1, 123_456_789_012, rng.randrange(1 << 50)])},
-			"ops": ops, "durs": durs, "faults": faults}
+		cfg = {"clck_start": start, "ind_period": period, "nlinks": nlinks,
+			"clock_offset": rng.choice([0, 1, 123_456_789_012, rng.randrange(1 << 50)])}
+		plan = {"engine": "clck", "seed": seed, "config": cfg, "ops": ops, "durs": durs, "faults": faults}
+		if rng.random() < 0.2:
+			# a second, independent generator in the same process: starting and stopping one of
+			# them must not disturb the other
+			cfg["second"] = {"clck_start": rng.choice([0, 7, HYPER - 5, rng.randrange(HYPER)]),
+				"ind_period": rng.choice([1, 2, 51, 102]), "nlinks": rng.choice([0, 1, 2])}
+			pos = sorted(rng.randrange(0, len(ops) + 1) for _ in range(rng.choice([1, 1, 2, 3])))
+			on = False
+			out = []
+			pi = 0
+			for i in range(len(ops) + 1):
+				while pi < len(pos) and pos[pi] == i:
+					out.append({"op": "b_stop" if on else "b_start", "dt": rng.choice([0, 1, rng.randrange(2 * P_NOM)])})
+					on = not on
+					pi += 1
+				if i < len(ops):
+					out.append(ops[i])
+			plan["ops"] = out
+		if rng.random() < 0.06:
+			# the frame handler fails once (whatever it drives raised): the clock may die with it,
+			# but if it goes on it must not hand out the same frame number again
+			plan["raise"] = [rng.randrange(0, max(1, min(max_ticks, 30)))]
+		return plan
 
 	def simplify(self, plan):
 		for key in ("faults",):
@@ -120,6 +141,15 @@ class ClckEngine:
 				p = json.loads(json.dumps(plan))
 				del p["durs"][k]
 				yield p
+		if plan.get("raise"):
+			p = json.loads(json.dumps(plan))
+			del p["raise"]
+			yield p
+		if plan["config"].get("second"):
+			p = json.loads(json.dumps(plan))
+			del p["config"]["second"]
+			p["ops"] = [o for o in p["ops"] if o["op"] not in ("b_start", "b_stop")]
+			yield p
 		c = plan["config"]
 		for k, v in (("clock_offset", 0), ("nlinks", 1), ("ind_period", 1)):
 			if c.get(k) != v:
@@ -152,7 +182,8 @@ class ClckEngine:
 			all_links = [StubLink(sim, i) for i in range(8)]
 			links = list(all_links[:cfg["nlinks"]])
 			gen = clck_gen.CLCKGen(links, clck_start=cfg["clck_start"], ind_period=cfg["ind_period"])
-			state = {"k": 0}
+			state = {"k": 0, "kb": 0}
+			raise_at = set(plan.get("raise") or ())
 
 			def handler(fn):
 				k = state["k"]
@@ -161,17 +192,45 @@ class ClckEngine:
 				d = durs.get(k, 0)
 				if d:
 					sim.sleep(d)
+				if k in raise_at:
+					sim.faults.fired["handler-raises"] = sim.faults.fired.get("handler-raises", 0) + 1
+					sim.record("fault", what="handler-raises", k=k)
+					raise RuntimeError("VP-INJECTED frame handler failure")
 				sim.record("tick-end", k=k)
 			gen.clck_handler = handler
+			genb = None
+			sec = cfg.get("second")
+			if sec:
+				blinks = [StubLink(sim, 100 + i) for i in range(sec["nlinks"])]
+				genb = clck_gen.CLCKGen(blinks, clck_start=sec["clck_start"], ind_period=sec["ind_period"])
+
+				def handler_b(fn):
+					k = state["kb"]
+					state["kb"] = k + 1
+					sim.record("tick", fn=fn, k=k, gen="B", thread=sim.current.name if sim.current else None)
+				genb.clck_handler = handler_b
 
 			def controller():
 				started = False
+				b_on = False
 				next_link = cfg["nlinks"]
 				for op in plan["ops"]:
 					if op.get("dt"):
 						sim.sleep(op["dt"])
 					o = op["op"]
-					if o == "start":
+					if o in ("b_start", "b_stop"):
+						if genb is None or (o == "b_start") == b_on:
+							continue
+						sim.record("ctl", op=o[2:] + "-call", gen="B")
+						before = set(x.name for x in sim.threads)
+						if o == "b_start":
+							genb.start()
+						else:
+							genb.stop()
+						b_on = o == "b_start"
+						sim.record("ctl", op=o[2:] + "-return", gen="B", running=bool(genb.running),
+							threads=sorted(x.name for x in sim.threads if x.name not in before))
+					elif o == "start":
 						if started:
 							continue
 						sim.record("ctl", op="start-call")
@@ -204,6 +263,10 @@ class ClckEngine:
 				sim.record("ctl", op="stop-call")
 				gen.stop()
 				sim.record("ctl", op="stop-return", running=bool(gen.running))
+				if genb is not None:
+					sim.record("ctl", op="stop-call", gen="B")
+					genb.stop()
+					sim.record("ctl", op="stop-return", gen="B", running=bool(genb.running))
 				sim.record("ctl", op="end")
 
 			ct = sim.spawn(controller, "ctl")
@@ -215,7 +278,7 @@ class ClckEngine:
 			if sim.heap or any(t.state == "runnable" for t in sim.threads):
 				sim.run(until=horizon + 50 * P_NOM)  # what still ticks now ticks after the final stop()
 			ended = any(k == "ctl" and kw.get("op") == "end" for _, k, kw in sim.history)
-			viols = check_history(sim.history, cfg, ended, sim.blocked_threads(), res.probes)
+			viols = check_all(sim.history, cfg, ended, sim.blocked_threads(), res.probes)
 		finally:
 			sim.abort()
 			for mod, name, val in reversed(saved):
@@ -259,6 +322,52 @@ class ClckEngine:
 
 
 # ---------------------------------------------------------------------- oracle ---------
+def check_all(history, cfg, ended, blocked, probes):
+	"""One generator: the recorded history as it is.  Two generators in one process: each one is
+	judged on its own events (its ticks, its links' indications, the waits of its thread and the
+	control calls made on it) exactly as if it ran alone."""
+	sec = cfg.get("second")
+	if not sec:
+		return check_history(history, cfg, ended, blocked, probes)
+	owner = {}   # clock thread name -> generator
+	for _t, k, kw in history:
+		if k == "ctl" and kw.get("gen") == "B":
+			for th in kw.get("threads", ()):   # threads that appeared while the second one was started
+				owner.setdefault(th, "B")
+	for _t, k, kw in history:
+		if k == "tick" and kw.get("thread") is not None:
+			owner.setdefault(kw["thread"], kw.get("gen", "A"))
+	parts = {"A": [], "B": []}
+	for ev in history:
+		_t, k, kw = ev
+		if k in ("tick", "tick-end", "ctl", "fault"):
+			if k == "ctl" and kw.get("op") == "end":
+				parts["A"].append(ev)
+				parts["B"].append(ev)
+			else:
+				parts[kw.get("gen", "A")].append(ev)
+		elif k == "ind":
+			if kw["link"] >= 100:
+				parts["B"].append((_t, k, dict(kw, link=kw["link"] - 100)))
+			else:
+				parts["A"].append(ev)
+		elif k == "wait-enter":
+			th = kw.get("thread")
+			if th == "ctl":
+				continue
+			parts[owner.get(th, "A")].append(ev)
+		else:
+			parts["A"].append(ev)
+	v = check_history(parts["A"], cfg, ended, blocked, probes)
+	pb = {}
+	cfgb = dict(sec)
+	vb = check_history(parts["B"], cfgb, True, blocked, pb)
+	for x in vb:
+		x["detail"]["generator"] = "second"
+	probes["second-generator-ticks"] = probes.get("second-generator-ticks", 0) + pb.get("tick", 0)
+	return v + vb
+
+
 def check_history(history, cfg, ended, blocked, probes):
 	"""C09 oracle over one recorded run.  See DESIGN.md §5/C09.  First pass with the
 	tick period only known to lie in 4 615 000 ± 2 ns; if the run shows one constant period
@@ -291,6 +400,9 @@ def _check_history(history, cfg, ended, blocked, probes, P_MIN, P_MAX):
 		bad("C09.controller-stuck", blocked=str(blocked)[:200])
 	for t, k, kw in history:
 		if k == "thread-death":
+			if "VP-INJECTED" in str(kw.get("msg")):
+				probe("clock-thread-died-of-injected-failure")
+				continue
 			bad("C09.thread-death", **{kk: str(v)[:120] for kk, v in kw.items()})
 
 	start = cfg["clck_start"]
@@ -310,6 +422,8 @@ def _check_history(history, cfg, ended, blocked, probes, P_MIN, P_MAX):
 	t_start_call = None
 	p_seen = set()
 	clean_prev = False
+	wake_due = None     # when the clock thread's current timed wait ends
+	failed = False      # an injected handler failure hit this session: the clock may be dead
 
 	def close_segment():
 		nonlocal seg_tick, seg_inds, seg_linksets
@@ -342,8 +456,13 @@ def _check_history(history, cfg, ended, blocked, probes, P_MIN, P_MAX):
 	for t, kind, kw in history:
 		if kind == "ctl":
 			op = kw["op"]
+			if op == "stop-call" and in_session and not failed and wake_due is not None and t > wake_due:
+				# it went to sleep until wake_due and nothing was heard of it since
+				bad("C09.tick-missing", stop_call=t, wake_due=wake_due, ticks_so_far=k_sess)
 			if op == "start-call":
 				close_segment()
+				wake_due = None
+				failed = False
 				in_session = True
 				expect_fn = start
 				k_sess = 0
@@ -375,6 +494,9 @@ def _check_history(history, cfg, ended, blocked, probes, P_MIN, P_MAX):
 			if clock_thread is None or kw["thread"] == clock_thread:
 				close_segment()
 				pending = (t, kw.get("late", 0))
+				wake_due = t + kw.get("timeout_ns", 0) + kw.get("late", 0)
+		elif kind == "fault":
+			failed = True
 		elif kind == "ind":
 			if not in_session:
 				bad("C09.ind-after-stop", t=t)
@@ -382,6 +504,7 @@ def _check_history(history, cfg, ended, blocked, probes, P_MIN, P_MAX):
 		elif kind == "tick":
 			S = t
 			fn = kw["fn"]
+			wake_due = None
 			if clock_thread is None:
 				clock_thread = kw["thread"]
 			if not in_session:
